@@ -72,6 +72,24 @@ TABLE = {
                      "count as non-trivial.",
                 technique="TLA+ denotational spec + TLC-generated programs replayed under both cache configurations + TLC trace validation",
                 ref="7 C05"),
+    "C10": dict(text="TLC's builder machine generates for_all(u, c) / for_all(u.n, c) with every condition tree over leaves on the "
+                     "universal variable, the free variable or both, alone or conjoined with outer conditions; each is executed "
+                     "and TLC judges the rows against the universally quantified statement of the denotation.",
+                technique="TLA+ denotational spec (forall) + TLC-generated programs replayed + TLC trace validation", ref="7 C10"),
+    "C15": dict(text="Generated queries use sub-queries (entity and set_of, over the enclosing or another variable) as conditions "
+                     "combined by and_/or_ with each other and with plain conditions, and as comparison operands (conjunctive "
+                     "contexts); TLC gives a sub-query the meaning of its conditions inlined and judges the rows.",
+                technique="TLA+ denotational spec (subq/sub = inlined conditions) + TLC-generated programs replayed + TLC trace validation",
+                ref="7 C15"),
+    "C16": dict(text="Generated queries over flatten(e) for list, tuple, scalar and object-list sources, all selections of parent "
+                     "and element, with and without conditions; TLC computes UNNEST (one row per element, parent binding kept) "
+                     "and compares as multiset when parent and element are selected.",
+                technique="TLA+ denotational spec (flatten = derived variable slot) + TLC-generated programs replayed + TLC trace validation",
+                ref="7 C16"),
+    "C17": dict(text="Generated membership tests of another variable against concatenate(e) and their negations, combined with "
+                     "other conditions, plus an(entity(concatenate(e))) whose single row must equal the list of all elements in "
+                     "domain and inner order; judged by TLC against ConcatFrom.",
+                technique="TLA+ denotational spec (ConcatFrom) + TLC-generated programs replayed + TLC trace validation", ref="7 C17"),
 }
 
 REASON_PENDING = "check not built yet (work in progress; see DESIGN.md section 10)"
